@@ -976,3 +976,69 @@ func (p *Prog) takesField(fn *ssa.Function, f *types.Var) bool {
 	}
 	return false
 }
+
+// PAIR/ready-count (C07): a ready callback counts the subscriptions it still
+// waits for. A subscription holds its own count while it descends into its
+// references and gives it back afterwards, immediately before the zero test:
+// a decrement placed before the descent lets the count reach zero inside a
+// nested descent (an already loaded reference) and again at the trailing
+// test — the request is answered twice.
+func ruleReadyCount(c *Ctx) {
+	p := c.P
+	fLoading := p.Field("server.readyCallback.loading")
+	onLoaded := p.Method("server.Subscription.onLoaded")
+	if fLoading == nil || onLoaded == nil {
+		c.undecided("server.readyCallback.loading", "anchor", "-", "not found")
+		return
+	}
+	seen := map[*ssa.Function]bool{}
+	n := 0
+	for _, st := range p.stores[fLoading] {
+		b, ok := st.Val.(*ssa.BinOp)
+		if !ok || b.Op != token.SUB {
+			continue
+		}
+		fn := st.Parent()
+		if seen[fn] {
+			continue
+		}
+		seen[fn] = true
+		n++
+		c.inst(1)
+		sp := &Spec{NoHelpers: true}
+		sp.Classify = func(t *Tracer, fr *Frame, in ssa.Instruction) []Ev {
+			if fr != t.RootFr {
+				return nil
+			}
+			if s2, ok := isStoreToT(t, fr, in, fLoading); ok {
+				if b2, isB := s2.Val.(*ssa.BinOp); isB && b2.Op == token.SUB {
+					return []Ev{{Kind: "dec"}}
+				}
+			}
+			if _, ok := isCallTo(in, onLoaded); ok {
+				return []Ev{{Kind: "descend", Stop: true}}
+			}
+			return nil
+		}
+		tr := runTrace(p, fn, sp)
+		bad := ""
+		for _, path := range tr.Paths {
+			di := indexKind(path, "dec")
+			if di < 0 {
+				continue
+			}
+			for _, e := range path[di:] {
+				if e.Kind == "descend" {
+					bad = "the subscription gives its count back before it descends into its references: the count can reach zero inside the descent and again at the trailing test (the waiting request is answered twice): " + tr.FmtPath(path)
+				}
+			}
+		}
+		if tr.Trunc {
+			bad = "path budget exhausted"
+		}
+		c.check(bad == "", fnName(fn), "the ready count is given back only after the descent into the references", p.InstrPos(st), fmt.Sprintf("%d paths", len(tr.Paths)), bad)
+	}
+	if n == 0 {
+		c.viol("server.readyCallback.loading", "the ready count is given back only after the descent", "-", "no decrement found")
+	}
+}
